@@ -143,15 +143,19 @@ func (nm LNumber) Format(f fmt.State, c rune) {
 	switch c {
 	case 'q', 's':
 		defaultFormat(nm.String(), f, c)
-	case 'b', 'c', 'd', 'U':
+	case 'b', 'c', 'U':
 		defaultFormat(int64(nm), f, c)
+	case 'd', 'i':
+		if v := int64(nm); v < 0 {
+			formatInteger(f, 'd', true, -uint64(v))
+		} else {
+			formatInteger(f, 'd', false, uint64(v))
+		}
 	case 'o', 'x', 'X':
 		// unsigned conversions: C prints the two's complement of a negative value
-		formatInteger(unsignedFmtState{f}, c, uint64(int64(nm)))
+		formatInteger(unsignedFmtState{f}, c, false, uint64(int64(nm)))
 	case 'e', 'E', 'f', 'F', 'g', 'G':
 		defaultFormat(float64(nm), f, c)
-	case 'i':
-		defaultFormat(int64(nm), f, 'd')
 	default:
 		if isInteger(nm) {
 			defaultFormat(int64(nm), f, c)
